@@ -18,6 +18,12 @@ def opCall : Op → ECall
   | .event ev => eventCall ev
   | .reset => resetTotalsCall
 
+/-- NOT the code: the variant of `CreateEnterLeaveEvent` that computes the totals from a snapshot `snap` it read with
+the getter before entering `Set` (the transaction's own read is ignored).  Used only to show that the
+linearization theorem is not vacuous about where the value is read (`C20_enterleave_conc_snapshot_variant_fails`);
+on the real code the harness parks threads right after any `Value.Get` (yield point `value.get`). -/
+def snapshotEventCall (snap ev : Event) : ECall := ⟨false, fun _ => none, fun _ _ => create snap ev, false⟩
+
 theorem opCall_apply (o : Op) (cur : Event) (t : Int) : (opCall o).apply cur t = step cur o := by
   cases o <;> rfl
 
